@@ -48,6 +48,7 @@ func ktValues() []float64 {
 		-9223372036854777856, -9223372036854775808, 9223372036854774784, 9223372036854775808,
 		18446744073709549568, 18446744073709551616,
 		-1, 0, 1, 0.5, -0.5, 1.5, 16777216, 16777217, 9007199254740992,
+		math.Inf(1), math.Inf(-1), math.NaN(),
 	}
 }
 
@@ -59,6 +60,14 @@ type ktRep struct {
 // ktReps lists every representation that denotes exactly v.
 func ktReps(v float64) []ktRep {
 	var lit string
+	switch {
+	case math.IsNaN(v):
+		return []ktRep{{"literal", "NaN"}, {"0/0", "(0/0)"}, {"Number()", "Number(\"x\")"}}
+	case math.IsInf(v, 1):
+		return []ktRep{{"literal", "Infinity"}, {"1/0", "(1/0)"}, {"Number()", "Number(\"Infinity\")"}}
+	case math.IsInf(v, -1):
+		return []ktRep{{"literal", "-Infinity"}, {"-1/0", "(-1/0)"}, {"Number()", "Number(\"-Infinity\")"}}
+	}
 	if v == math.Trunc(v) {
 		lit = strconv.FormatFloat(v, 'f', 0, 64)
 	} else {
@@ -214,7 +223,7 @@ func ktModel(sink string, w ktWidth, v float64) []string {
 		out.SetFloat(v)
 		return []string{"ok:" + bridge.Render(out.Interface())}
 	case reflect.Float32:
-		if math.Abs(v) > math.MaxFloat32 {
+		if math.Abs(v) > math.MaxFloat32 && !math.IsInf(v, 0) {
 			return []string{"loud"}
 		}
 		out.SetFloat(v)
